@@ -41,7 +41,11 @@ type c09Case struct {
 var c09Keys = []string{"a", "b", "c", "d"}
 
 func genEffects(t *rapid.T, maxK int) []xEffect {
-	k := rapid.IntRange(0, maxK).Draw(t, "k")
+	ks := []int{0}
+	for i := 1; i <= maxK; i++ {
+		ks = append(ks, i, i)
+	}
+	k := rapid.SampledFrom(ks).Draw(t, "k")
 	var es []xEffect
 	for i := 0; i < k; i++ {
 		switch rapid.IntRange(0, 5).Draw(t, "ekind") {
@@ -63,7 +67,7 @@ func genC09(t *rapid.T) c09Case {
 		s := xScript{N: i + 1, E: genEffects(t, 5)}
 		s.Out = rapid.SampledFrom([]string{"err", "err", "err", "ok", "ok", "async"}).Draw(t, "out")
 		if s.Out == "err" {
-			s.F = rapid.IntRange(0, len(s.E)).Draw(t, "failAfter")
+			s.F = len(s.E) - rapid.IntRange(0, len(s.E)).Draw(t, "failBeforeEnd")
 			if rapid.IntRange(0, 3).Draw(t, "failKind") == 0 {
 				s.FK = "bank"
 			}
